@@ -432,20 +432,31 @@ PERSONALITIES = {
 }
 
 
-def random_chooser(rng, personality, p_kill=0.0, max_ops=MAX_OPS, p_split=0.0, p_complete=0.0):
+def random_chooser(rng, personality, p_kill=0.0, max_ops=MAX_OPS, p_split=0.0, p_complete=0.0, drain=False):
     """p_split: probability that a chosen delivery of a finished-notification is executed in three separately
     scheduled parts (["finA", c], later ["finB", c], later ["finC", c]: before / under / after comp_lock);
     p_complete: probability per step that the external stage-completion hook of the current stage (rarely: of an
     earlier stage, whose poll timer is still running) answers True - at most once per stage.
     The chooser gives up (-> result "stopped") when nothing but scheduler passes has been possible for 8 consecutive
-    steps: no task can exit, nothing is queued, and the loop of run() still does not end."""
+    steps: no task can exit, nothing is queued, and the loop of run() still does not end.
+    drain: when the op budget is used up the chooser does not stop (a stop would be mistaken for a stage loop that does
+    not terminate) but goes on eagerly - the first enabled op, a scheduler pass when nothing is enabled - until the stage
+    loop ends, nothing has been possible for 8 steps, or five times the budget is spent."""
     w = PERSONALITIES[personality]
     state = {"n": 0, "killed": False, "idle": 0}
 
     def choose(sim):
         state["n"] += 1
-        if state["n"] > max(max_ops, 40 * len(sim.refs)):
-            return None
+        budget = max(max_ops, 40 * len(sim.refs))
+        if state["n"] > budget:
+            if not drain or state["n"] > 5 * budget:
+                return None
+            en = sim.enabled()
+            if en:
+                state["idle"] = 0
+                return en[0]
+            state["idle"] += 1
+            return None if state["idle"] > 8 else ["sched"]
         if p_complete and rng.random() < p_complete:
             ks = [k for k in range(sim.stage_no + 1) if sim.can_complete(k)]
             if ks:
